@@ -273,6 +273,12 @@ struct generic_epoch_based<Traits>::thread_data {
 
   void leave_region() {
     if (Traits::region_extension_type != region_extension::none && --region_entries == 0) {
+      // with lazy region extension the flag is only set by the first critical entry inside the
+      // region, so a region without any critical entry has nothing to clear.
+      if (Traits::region_extension_type == region_extension::lazy &&
+          !control_block->is_in_critical_region.load(std::memory_order_relaxed)) {
+        return;
+      }
       clear_critical_region_flag();
     }
   }
